@@ -325,6 +325,28 @@ template<class T, class ABI> struct K {
     }
 };
 template<class T, class ABI> const size_t K<T, ABI>::N;
+// Native full-range sweep (thorough tier, DESIGN C08): every 32-bit pattern goes through the vector operation and through the plain
+// scalar operation; only vectors with a differing lane (NaN = NaN) are recorded -- as ordinary events, judged like every other event.
+// The summary event is coverage ("no candidates" is not a verdict).
+template<class T, class ABI, class FV, class FS>
+static void sweep(const char* id, const char* Ts, const char* abis, const char* op, FV fv, FS fs, int cap) {
+    using V = SIMDVector<T, ABI>;
+    const size_t N = V::Size;
+    K<T, ABI> k(id, Ts, abis, op, "-", BITS, 1, 1, 0, 0, 1, 0, 0);
+    long long cand = 0; int emitted = 0;
+    alignas(64) T o[N];
+    for (uint64_t base = 0; base < (1ull << 32); base += N) {
+        for (size_t i = 0; i < N; ++i) { uint32_t w = (uint32_t)(base + i); memcpy(&k.A[i], &w, 4); }
+        V a(k.A, false); V r = fv(a); r.store(o, false);
+        bool diff = false;
+        for (size_t i = 0; i < N; ++i) { T e = fs(k.A[i]); if (memcmp(&e, &o[i], 4) != 0 && !(is_nan_(e, std::is_floating_point<T>()) && is_nan_(o[i], std::is_floating_point<T>()))) diff = true; }
+        if (diff) { ++cand; if (emitted < cap) { k.cid = std::string(id) + "/" + std::to_string(emitted++); k.out_v(r, [&](T x, T, T, T) { return fs(x); }); } }
+    }
+    vt::Ev ev("Sweep"); ev.str("case", id);
+    ev.s += ",\"in\":{\"T\":\""; ev.s += Ts; ev.s += "\""; ev.str("abi", abis).num("N", (long long)N).str("op", op);
+    ev.s += "},\"out\":{\"patterns64k\":65536,\"candidates\":" + std::to_string(cand > 999999999LL ? 999999999LL : cand) + "}";
+    ev.emit();
+}
 // L2 binding (Mask.tla): the declared width of the mask parameter of mask_store, read off the member's type
 template<class V, class M> constexpr int mask_bits_of(void (V::*)(typename V::scalar_value_type*, M, bool) const) { return 8 * (int)sizeof(M); }
 template<class T, class ABI> static void meta_maskbits(const char* Ts, const char* abis, const char* abin) {
@@ -495,7 +517,15 @@ def case_id(c):
     return "simd/%s/%s/%s/%s/%s%d" % (c["T"], abi_name(c), c["op"], c["form"], c["mode"], c["sc"])
 
 
+SWEEP = {"neg": ("-a", "wneg(x)"), "abs": ("abs(a)", "wabs(x)"), "sqrt": ("sqrt(a)", "wsqrt(x)")}
+
+
 def block(c, idx):
+    if c["form"] == "sweep":
+        ve, se = SWEEP[c["op"]]
+        return ('static void case_%d() { typedef %s T; typedef %s ABI; typedef SIMDVector<T,ABI> V; '
+                'c08::sweep<T,ABI>("%s","%s","%s","%s", [](const V& a) { return V(%s); }, [](T x) { return %s; }, 40); }') % (
+            idx, CXX_T[c["T"]], abi_cxx(c), c["case"], c["T"], c["abi"], c["op"], ve, se)
     uses, st = entry(c["op"], c["form"], c["N"], U=CXX_T.get(c["form"]))
     masks = c["masks"] or [0]
     return ('static void case_%d() { typedef %s T; typedef %s ABI; typedef SIMDVector<T,ABI> V; typedef c08::K<T,ABI> KK; typedef KK::R R; '
@@ -527,6 +557,12 @@ class C08(Check):
                    "mask_load may keep or zero the disabled register lanes (both behaviours exist in the library); set(x0..xn-1) puts the LAST argument in lane 0",
                    "operands reach the vector through the unaligned load constructor and results leave through store(); both are themselves checked cases"]
 
+    def configs(self, ctx):
+        if ctx.tier == "quick":
+            return list(QUICK_CFGS)
+        # every ISA level (SSE4.1 / AVX-without-AVX2 / scalar select different helper code), C++17 and -O3 (auto-vectorised generic loops) on the wide ones
+        return ["%s-14-O2" % i for i in ALL_ISAS] + ["avx2-17-O2", "avx512-17-O2", "avx2-14-O3"]
+
     def plan(self, ctx):
         cfg = "GenSimd_%s.cfg" % ctx.tier
         t = time.time()
@@ -548,8 +584,14 @@ class C08(Check):
     def post_events(self, ctx, traces):
         # MODEL-DRIFT report (never a verdict): pure key comparison of the declared mask width recorded from the code with the L2 model's table
         drift = set()
+        self.sweeps = {}
         for cfgname, evs in traces.items():
             for ev in evs:
+                if ev.get("e") == "Sweep":      # coverage of the native sweeps: patterns visited / candidate vectors handed to the judge
+                    s = self.sweeps.setdefault(ev["case"], {"patterns": 0, "candidates": 0, "configurations": 0})
+                    s["patterns"] += ev["out"]["patterns64k"] * 65536
+                    s["candidates"] += ev["out"]["candidates"]
+                    s["configurations"] += 1
                 if ev.get("e") == "Meta":
                     key = tuple(ev["case"].split("/")[2:4])
                     if self.mbits.get(key) != ev["out"]["bits"]:
@@ -565,6 +607,9 @@ class C08(Check):
     def nontrivial(self, ev):
         return ev["e"] == "Simd"
 
+    def extra_coverage(self, ctx):
+        return {"events_expected_per_full_configuration": getattr(self, "n_expected", 0), "native_sweeps": getattr(self, "sweeps", {})}
+
     def units(self, ctx, plan, cfgname):
         isa = cfgname.split("-")[0]
         groups = {}
@@ -572,6 +617,11 @@ class C08(Check):
             if c["abi"] in ISA_ABIS[isa]:
                 groups.setdefault((c["T"], abi_name(c)), []).append(c)
         units, per = [], 90  # ~28 ms per case on top of ~2 s for the headers
+        main = "\nint main(int argc, char** argv) {\n    vt::open(argc, argv, \"%s\");\n    vt::install_handlers();\n    case_0();\n    vt::close_ok();\n    return 0;\n}\n" % cfgname
+        for (T, ab), cs in sorted(groups.items()):
+            for c in [c for c in cs if c["form"] == "sweep"]:        # one unit per sweep (tens of seconds each): they run in parallel
+                units.append(("sw_%s_%s_%s" % (T, ab, c["op"]), PRELUDE + block(c, 0) + main, []))
+            cs[:] = [c for c in cs if c["form"] != "sweep"]
         for (T, ab), cs in sorted(groups.items()):
             cs.sort(key=lambda c: (c["form"] == "gp", c["case"]))       # guard-page cases last: a fault ends the binary
             for ci in range(0, len(cs), per):
@@ -593,5 +643,3 @@ class C08(Check):
             w += 3 * n
         return w * max(1, len(ev.get("outs", [1])))
 
-    def extra_coverage(self, ctx):
-        return {"events_expected_per_full_configuration": getattr(self, "n_expected", 0)}
